@@ -459,6 +459,56 @@ def run(ctx):
                                       'different (default) value' % norm(st.targets[0])))
         else:
             ctx.ok('R-PARAMDEAD', name, w6, 'no dead re-assignment of a parameter')
+    # R-TIMEDIR: time2t hands np.interp increasing abscissae also for a descending time axis
+    ctx.rule('R-TIMEDIR', 'time2t: the abscissa and the index vector of every np.interp call are chosen under a test of the direction of the time axis (reversed together when it descends)')
+    t2 = mod.func('PseudoNetCDFFile.time2t')
+    wt2 = 'src/PseudoNetCDF/%s PseudoNetCDFFile.time2t' % RP
+
+    def _direction_test(e):
+        for x in ast.walk(e):
+            if isinstance(x, ast.Compare) and len(x.ops) == 1 and isinstance(x.ops[0], (ast.Gt, ast.Lt, ast.GtE, ast.LtE)):
+                a, b = x.left, x.comparators[0]
+                if isinstance(a, ast.Subscript) and isinstance(b, ast.Subscript) and norm(a.value) == norm(b.value):
+                    ia, ib = norm(a.slice), norm(b.slice)
+                    if set((ia, ib)) == set(('0', '-1')):
+                        return True
+                if any(isinstance(y, ast.Call) and (dotted(y.func) or '').split('.')[-1] == 'diff' for y in ast.walk(x)):
+                    return True
+        return False
+
+    def _reversed(e):
+        return isinstance(e, ast.Subscript) and isinstance(e.slice, ast.Slice) and e.slice.step is not None and norm(e.slice.step) == '-1' and e.slice.lower is None and e.slice.upper is None
+    # names bound to a reversed array under a direction test: name -> statement
+    guarded = {}
+    for st in iter_stmts(t2.body):
+        if isinstance(st, ast.If) and _direction_test(st.test):
+            for s2 in st.body + st.orelse:
+                if isinstance(s2, ast.Assign) and len(s2.targets) == 1:
+                    tg, val = s2.targets[0], s2.value
+                    pairs_ = list(zip(tg.elts, val.elts)) if isinstance(tg, (ast.Tuple, ast.List)) and isinstance(val, (ast.Tuple, ast.List)) and len(tg.elts) == len(val.elts) else [(tg, val)]
+                    for t_, v_ in pairs_:
+                        if isinstance(t_, ast.Name):
+                            guarded.setdefault(t_.id, []).append((v_, s2 in st.body))
+    icalls = [c for c in walk_expr(t2) if isinstance(c, ast.Call) and dotted(c.func) in ('np.interp', 'numpy.interp')]
+    if not icalls:
+        ctx.undec('R-TIMEDIR', 'np.interp', wt2, 'time2t no longer calls np.interp')
+    for c in icalls:
+        args = list(c.args)
+        xp_a = args[1] if len(args) > 1 else kw(c, 'xp')
+        fp_a = args[2] if len(args) > 2 else kw(c, 'fp')
+        oid = 'interp@%s' % norm(c)[:40]
+        good = False
+        if isinstance(xp_a, ast.Name) and isinstance(fp_a, ast.Name) and xp_a.id in guarded and fp_a.id in guarded:
+            revx = [b for v, b in guarded[xp_a.id] if _reversed(v)]
+            revf = [b for v, b in guarded[fp_a.id] if _reversed(v)]
+            plainx = [b for v, b in guarded[xp_a.id] if not _reversed(v)]
+            # reversed together in one branch, taken as they are in the other
+            good = bool(revx) and revx == revf and bool(plainx) and all(b != revx[0] for b in plainx)
+        if good:
+            ctx.ok('R-TIMEDIR', oid, wt2, '%s and %s are reversed together when the axis descends' % (xp_a.id, fp_a.id))
+        else:
+            ctx.violation(Finding('R-TIMEDIR', RP, 'PseudoNetCDFFile.time2t', api.stmt_of(c), 'np.interp gets the abscissae %s as they are: for a descending time axis (which val2idx and time2idx handle) they decrease, '
+                                  'np.interp then returns garbage without an error ([2, 1, 0] hours looked up at 0, 1, 2 h gives [0, 2, 2])' % (norm(xp_a) if xp_a is not None else '?')), oid=oid)
     # R-STEPINT: a file attribute reaches timedelta() only through int() / float()
     ctx.rule('R-STEPINT', 'getTimes: a value computed from a file attribute (TSTEP read from netCDF is a numpy scalar) is converted with int() / float() before timedelta() gets it')
     gt = mod.func('PseudoNetCDFFile.getTimes')
